@@ -4,6 +4,7 @@
 -/
 import OidcModel.Spec.C01
 import OidcModel.Generated.RPVerifier
+import OidcModel.GoTac
 
 namespace C01
 open Go Gen Hand
@@ -21,26 +22,25 @@ theorem tRound_second_bounds (t : Int) :
 /-! ### one lemma per translated check: what `= .ok` means -/
 
 theorem checkSubject_ok {now c} : CheckSubject now c = .ok () ↔ c.sub ≠ "" := by
-  unfold CheckSubject Claims.GetSubject Go.ok; split <;> simp_all
+  unfold CheckSubject Claims.GetSubject Go.ok; go_leaf
 
 theorem checkIssuer_ok {now c i} : CheckIssuer now c i = .ok () ↔ c.iss = i := by
-  unfold CheckIssuer Claims.GetIssuer Go.ok; split <;> simp_all
+  unfold CheckIssuer Claims.GetIssuer Go.ok; go_leaf
 
 theorem checkAudience_ok {now c cid} : CheckAudience now c cid = .ok () ↔ cid ∈ c.aud := by
-  unfold CheckAudience Claims.GetAudience Go.ok Go.contains; split <;> simp_all
+  unfold CheckAudience Claims.GetAudience Go.ok Go.contains; go_leaf
 
 theorem checkAuthorizedParty_ok {now c cid} :
     CheckAuthorizedParty now c cid = .ok () ↔ ((c.azp = "" ∨ c.azp = cid) ∧ (c.aud.length ≤ 1 ∨ c.azp ≠ "")) := by
   unfold CheckAuthorizedParty Claims.GetAudience Claims.GetAuthorizedParty Go.ok Go.len HasLen.len instHasLenList
-  simp only []
-  split <;> split <;> (try split) <;> simp_all <;> first | omega | grind
+  go_leaf
 
 theorem checkNonce_ok {now c n} : CheckNonce now c n = .ok () ↔ c.nonce = n := by
-  unfold CheckNonce Claims.GetNonce Go.ok; split <;> simp_all
+  unfold CheckNonce Claims.GetNonce Go.ok; go_leaf
 
 
 theorem checkExpiration_ok {now c off} : CheckExpiration now c off = .ok () ↔ now + off < ns c.exp := by
-  unfold CheckExpiration Claims.GetExpiration Go.ok tBefore tAdd; simp only []; split <;> simp_all
+  unfold CheckExpiration Claims.GetExpiration Go.ok tBefore tAdd; go_leaf
 
 theorem checkACR_ok {now c acr} :
     CheckAuthorizationContextClassReference now c acr = .ok () ↔ (∀ f, acr = some f → f c.acr = .ok ()) := by
@@ -59,24 +59,14 @@ theorem checkIssuedAt_ok {now c maxIAT off} :
         (maxIAT = 0 ∨ ns c.iat ≥ tRound (now - maxIAT) second)) := by
   unfold CheckIssuedAt Claims.GetIssuedAt Go.ok tBefore tAfter tAdd tIsZero
   simp only [ns, Int.sub_eq_add_neg]
-  split
-  · simp_all
-  · split
-    · simp_all <;> omega
-    · split
-      · simp_all <;> omega
-      · split <;> simp_all <;> omega
+  go_leaf
 
 theorem checkAuthTime_ok {now c maxAge} :
     CheckAuthTime now c maxAge = .ok () ↔
       (maxAge = 0 ∨ (ns c.authTime ≠ zeroTime ∧ ns c.authTime ≥ tRound (now - maxAge) second)) := by
   unfold CheckAuthTime Claims.GetAuthTime Go.ok tBefore tAdd tIsZero
   simp only [ns, Int.sub_eq_add_neg]
-  split
-  · simp_all
-  · split
-    · simp_all
-    · split <;> simp_all <;> omega
+  go_leaf
 
 theorem checkSignature_ok {now t p c algs ks c'} (h : CheckSignature now t p c algs ks = .ok c') :
     ∃ j s, joseParseSigned t (toJoseSignatureAlgorithms algs) = .ok j ∧ j.Signatures = [s] ∧
